@@ -9,9 +9,6 @@ namespace CanVerif
 
 def μ (st : PS) : Nat := μS st.sc + (if st.hasLA && st.la.typ != tokEOF then 1 else 0)
 abbrev noFuel : PErr → Prop := fun e => e ≠ .fuel
-/-- the ghost bound of a specification, wrapped so that it is only ever instantiated from the precondition -/
-@[irreducible] def bnd (n : Nat) : Nat := n
-theorem bnd_eq (n : Nat) : bnd n = n := by unfold bnd; rfl
 
 macro "close_vcs" : tactic => `(tactic| all_goals first
   | ((try simp only [noFuel, bnd_eq, tokEOF, tokIdent, tokInt, tokFloat] at *); grind)
